@@ -112,6 +112,10 @@ class TypeOverwriting(Transformation):
                 for i, t_param in enumerate(type_parameters)
             }
             n.t.type_args[indexes[type_param.t]] = ir_type
+            # The overwritten type argument must be printed explicitly; an
+            # earlier type erasure may have marked the type arguments of this
+            # constructor call as inferable (diamond).
+            n.t.can_infer_type_args = False
         self.is_transformed = True
         self.error_injected = "{} expected but {} found in node {}".format(
             str(old_type), str(ir_type), n.node_id)
